@@ -425,13 +425,25 @@ func (c *Crew) toMachines(ctx context.Context, msg interface{}) ([]string, error
 			}
 			return []string{vv}, nil
 		case []string:
-			return vv, nil
+			mids := make([]string, 0, len(vv))
+			seen := make(map[string]bool, len(vv))
+			for _, mid := range vv {
+				if !seen[mid] {
+					seen[mid] = true
+					mids = append(mids, mid)
+				}
+			}
+			return mids, nil
 		case []interface{}:
-			mids := make([]string, len(vv))
-			for i, x := range vv {
-				switch vv := x.(type) {
-				case string:
-					mids[i] = vv
+			// Each machine named in the list sees the
+			// message once; members that are repeated or
+			// aren't strings contribute nothing.
+			mids := make([]string, 0, len(vv))
+			seen := make(map[string]bool, len(vv))
+			for _, x := range vv {
+				if mid, is := x.(string); is && !seen[mid] {
+					seen[mid] = true
+					mids = append(mids, mid)
 				}
 			}
 			return mids, nil
